@@ -78,7 +78,8 @@ theorem run_fields_absent (args : Args) (pn : String)
 
 /-- one parameter's statements, run on the arguments, set exactly what the property lists for it -/
 theorem run_paramOps (m : MethodSpec) (args : Args) (p : Param)
-    (hq : p.kind ≠ .qualOther) (hn : ∀ v, getKV args p.name ≠ some (.struct true v)) :
+    (hq : p.kind ≠ .qualOther)
+    (hn : isStructParam p = true → fieldsOf p ≠ [] → ∀ v, getKV args p.name ≠ some (.struct true v)) :
     runQueryOps args (specParamOps m p) = some (plainOf m args p) := by
   cases hk : p.kind with
   | scalar =>
@@ -101,7 +102,11 @@ theorem run_paramOps (m : MethodSpec) (args : Args) (p : Param)
       cases a with
       | struct isNil v =>
         cases isNil with
-        | true => exact absurd ha (hn v)
+        | true =>
+          cases fs with
+          | nil => rfl
+          | cons f fs' =>
+            exact absurd ha (hn (by simp [isStructParam, hk]) (by simp [fieldsOf, hk]) v)
         | false => exact run_fields_present args p.name v ha fs
       | scalar v => exact run_fields_absent args p.name (by simp [ha]) (by simp [ha]) fs
       | dict v => exact run_fields_absent args p.name (by simp [ha]) (by simp [ha]) fs
@@ -414,7 +419,8 @@ structure MethodOK (m : MethodSpec) : Prop where
 
 /-- the argument values a call may carry for the theorems to apply (¬F_nilStructDeref, ¬F_pathArgBrace) -/
 structure ArgsOK (m : MethodSpec) (args : Args) : Prop where
-  noNilStruct : m.verb.hasBody = false → ∀ p ∈ m.params, ∀ v, getKV args p.name ≠ some (.struct true v)
+  noNilStruct : m.verb.hasBody = false → ∀ p ∈ m.params, isStructParam p = true → fieldsOf p ≠ [] →
+    ∀ v, getKV args p.name ≠ some (.struct true v)
   noBrace : ∀ n ∈ placeholders m.path, noBrace (argText args (resolve m (String.ofList n)))
 
 /-- the cooked tables of a method whose directives parsed to what the user meant -/
@@ -506,7 +512,9 @@ theorem slots_eq_spec (m : MethodSpec) (c : Cooked) (d : PathDir) (subs : List P
     cases m.params.find? isCtxParam with
     | none => cases anyCtx <;> rfl
     | some p =>
-      simp only [Option.map_some, Option.or_some, ctxTag]
+      have e : ((Option.map (fun x : Param => x.name) (some p)).or (none : Option String)) = some p.name := rfl
+      rw [e]
+      simp only [ctxTag]
       cases getKV args p.name with
       | none => rfl
       | some a => cases a <;> rfl
